@@ -88,7 +88,7 @@ fn drive<const N: usize>(shape: &Shape, stream: &[u8], cuts: &[usize], use_ref: 
                         None => (0, true),
                         Some(r) => (
                             r.len(),
-                            r.len() <= window.len() && r.as_ptr() == window[window.len() - r.len()..].as_ptr(),
+                            r.len() <= window.len() && (r.is_empty() || r.as_ptr() == window[window.len() - r.len()..].as_ptr()),
                         ),
                     };
                     let borrows_inside = log.borrows.iter().all(|(p, n)| *n == 0 || (*p >= acc_lo && p + n <= acc_hi));
